@@ -39,6 +39,7 @@ def _strategy():
         "addr": st.sampled_from([0x20, 0x7F, 0x80, 0xC8, 0xF0, 0xF8, 0xFC, 0xFD, 0xFD]),
         "ops": st.one_of(rnd, pattern),
         "dm1_tail": st.booleans(),
+        "tx_pre": st.sampled_from([0.0, 0.0, 0.002, 0.005]),      # a frame write of the job thread waits that long before the bus
         "lat": st.lists(st.sampled_from(simbus.LATENCY_GRID[1:]), min_size=1, max_size=2),
     })
 
@@ -89,7 +90,7 @@ class C13:
         try:
             j = W.load()
             State = j.ControllerApplication.State
-            s = w.stack("S", dll=p["dll"], max_cmdt=255)
+            s = w.stack("S", dll=p["dll"], max_cmdt=255, tx_pre=p.get("tx_pre", 0.0))
             name_val = NAME | (int(p["aac"]) << 63)
             ca = s.add_ca("ca", name_val, p["addr"], bypass=p["bypass"])
             peer = RefPeer(w.bus, "P", SA_P, fd=fd, grants=[255], reply_lat=[0.001])
@@ -213,6 +214,7 @@ class C13:
             w.run_for(0.5)
             # ---- trace monitor over every frame of the stack
             nb = R.name_bytes(name_val)
+            first_claim = [None]
             for (e, st_, adr) in snap:
                 f = R.id_fields(e.can_id)
                 sa = f["sa"]
@@ -224,6 +226,20 @@ class C13:
                     grp = R.mpg_unpack(e.data)
                     if len(grp) == 1 and (grp[0][2] >> 8) == 0xEA and list(grp[0][3][:3]) == [0x00, 0xEE, 0x00]:
                         continue
+                # the veto window of the INITIAL claim: a CA that claims an address of the range 128..247 through the real
+                # procedure completes claiming 250 ms after that claim was on the bus, not before (re-claims after a loss are
+                # not judged here: the library has no way to restart its timer for them - DESIGN.md 6, remarks)
+                if first_claim[0] is None:
+                    for (e2, _, _) in snap:
+                        f2 = R.id_fields(e2.can_id)
+                        if e2.ext and f2["pf"] == 0xEE and f2["ps"] == 255 and list(e2.data) == nb:
+                            first_claim[0] = (e2.t, f2["sa"])
+                            break
+                if (not p["bypass"]) and first_claim[0] is not None and 128 <= first_claim[0][1] <= 247 and sa == first_claim[0][1] \
+                        and e.t < first_claim[0][0] + 0.25 - 1e-9:
+                    V("frame-inside-veto-window", "application frame id 0x%08X was sent %.4f s after the CA's initial claim for address %d "
+                      "appeared on the bus (the veto window is 250 ms)" % (e.can_id, e.t - first_claim[0][0], sa))
+                    break
                 if st_ != State.NORMAL or sa != adr:
                     V("trace-frame-without-address", "frame id 0x%08X (data %s) was put on the bus at t=%.4f while the CA was in state "
                       "%r holding address %r" % (e.can_id, e.data.hex()[:24], e.t - 1000, st_, adr))
